@@ -116,6 +116,11 @@ def sel(arr, idx):
     return r
 
 
+def valid_idempotent_latin(cells, n):
+    """idempotent quasigroup: a latin square on 0..n-1 with m[i][i] = i"""
+    return AND([valid_latin(cells, n, range(n))] + [cells[i * n + i] == i for i in range(n)])
+
+
 def valid_quasigroup5(cells, n):
     op = lambda a, b: sel([sel(cells[i * n : (i + 1) * n], b) for i in range(n)], a)  # noqa: E731  a*b = cells[a][b]
     cs = [valid_latin(cells, n, range(n))]
@@ -364,6 +369,24 @@ def run_all(tier, only=None):
             cnt = count_models(rc.phi, cells, limit=1000, timeout_s=300)
             rep.q("latin_square_rc", n, "count(model projected on the colour cells)=literature", cnt == known[n], result=cnt, expected=known[n], t0=t0, unknown=cnt is None)
             rep.instances.append(dict(model="latin_square_rc", args=[n], count=known[n]))
+    # ---- idempotent quasigroups (the base model of the quasigroup examples), with and without symmetry breaking
+    if on("quasigroup"):
+        from nucs.examples.quasigroup.quasigroup_problem import QuasigroupProblem
+
+        for n in (3, 4, 5):
+            plain = Net(QuasigroupProblem(n, symmetry_breaking=False))
+            sb = Net(QuasigroupProblem(n, symmetry_breaking=True), tag="s")
+            cells = plain.v[: n * n]
+            valid = valid_idempotent_latin(cells, n)
+            implies(rep, "quasigroup", n, "model=>valid", plain.phi, valid, timeout_s=300)
+            cnt_valid = check_count(rep, "quasigroup", n, "count(valid)=count(model)", valid, cells, count_models(plain.phi, cells, limit=500, timeout_s=300), limit=500)
+            implies(rep, "quasigroup", n, "sb-model=>valid", sb.phi, valid_idempotent_latin(sb.v[: n * n], n), timeout_s=300)
+            t0 = time.time()
+            _, r1 = solve(plain.phi)
+            _, r2 = solve(sb.phi)
+            rep.q("quasigroup", n, "sb preserves satisfiability", r1 == r2 and r1 != z3.unknown, result=[str(r1), str(r2)], t0=t0, unknown=z3.unknown in (r1, r2))
+            rep.instances.append(dict(model="quasigroup", args=[n, False], count=cnt_valid))
+            rep.instances.append(dict(model="quasigroup", args=[n, True], all_valid="idempotent_latin"))
     # ---- quasigroup QG5
     if on("quasigroup"):
         for n in (5,) if q else (5, 6, 7):
